@@ -64,10 +64,12 @@ Definition ignored (w : world) (pats : list regex) (p : bytes) : bool :=
 Definition tracked (w : world) (p : bytes) : bool :=
   match get_entry (idx_of w) p with Some _ => true | None => false end.
 
-(* the filtered walk of `status`: a directory is skipped when it is ignored
-   and holds no tracked path; a file when it is ignored and not tracked *)
+(* the filtered walk of `status`: a directory is skipped when it is ignored,
+   holds no tracked path and is not itself the path of a tracked entry (a
+   tracked file that has become a directory: GetEntry finds it); a file when it
+   is ignored and not tracked *)
 Definition visible (w : world) (pats : list regex) (f : bytes) : bool :=
-  forallb (fun d => negb (ignored w pats d && negb (is_dir (idx_of w) d))) (ancestors f)
+  forallb (fun d => negb (ignored w pats d && negb (is_dir (idx_of w) d) && negb (tracked w d))) (ancestors f)
   && negb (ignored w pats f && negb (tracked w f)).
 
 Definition put_obj (k : kind) (d : bytes) : M bytes :=
